@@ -403,34 +403,36 @@ Proof.
   intros H Hx. apply Forall_app in H as [H1 H2]. apply Forall_app. split; [assumption|]. constructor; assumption.
 Qed.
 
-(* mi_segment_span_free on the raw region: a valid segment with the free span (a, w) *)
-Lemma raw_fill_free U sg qs a w l1 l2 m :
-  raw_inv U (sg, qs) a w l1 l2 m ->
-  span_Inv_with U (span_free (sg, qs) a w) (l1 ++ (a, w) :: l2) m.
+(* mi_segment_span_free on a region that no span of L1 ++ L2 touches adds the free span (a, w) *)
+Lemma flat_add_free U sg qs a w L1 L2 :
+  flat_inv U sg qs (L1 ++ L2) -> 0 < w -> a + w <= slice_entries sg -> 0 < a ->
+  (forall i c, In (i, c) (L1 ++ L2) -> 0 < c /\ (i + c <= a \/ a + w <= i)) ->
+  let st' := span_free (sg, qs) a w in
+  flat_inv U (fst st') (snd st') (L1 ++ (a, w) :: L2) /\ frame_seg sg (fst st') /\
+  (forall j, j < a \/ a + w <= j -> get (entries (fst st')) j = get (entries sg) j) /\
+  get (entries (fst st')) a = mkSlice w 0 0.
 Proof.
-  intros (Hk & T1 & Hw & T2 & Hm & Haw & Hf & Hok & (r & Hr) & Hb0 & Hu & Hl & Hn & (Q1 & Q2 & Q3 & Q4)).
-  cbn [fst snd] in *.
-  rewrite span_free_unfold.
+  intros (Hk & Hf & Hok & Hu & Hl & Hn & (Q1 & Q2 & Q3 & Q4)) Hw Haw Ha0 Hposn.
+  cbv zeta. rewrite span_free_unfold. cbn [fst snd].
   destruct (sf_entries_spec sg a w Hw Haw Hn Hl) as (S1 & S2 & S3 & S4).
   set (es' := sf_entries sg a w) in *.
   set (sg' := set_entries sg es').
   set (qs' := if queued sg then q_upd qs (slice_bin w) (cons a) else qs).
   assert (Hfr : frame_seg sg sg') by (apply frame_set_entries; assumption).
-  assert (Ha0 : 0 < a). { subst l1. cbn in T1. destruct T1 as (_ & Hc & T1). apply tiles_le in T1. lia. }
-  assert (Hout : forall i c, In (i, c) (l1 ++ l2) -> forall j, i <= j -> j < i + c -> get es' j = get (entries sg) j).
-  { intros i c Hin j Hj1 Hj2. destruct (raw_outside _ _ _ _ _ _ _ T1 T2 Hin) as (Hc & [H|H]); apply S4; lia. }
-  assert (Hpos : forall i c, In (i, c) (l1 ++ l2) -> 0 < c /\ i <> a).
-  { intros i c Hin. destruct (raw_outside _ _ _ _ _ _ _ T1 T2 Hin) as (Hc & [H|H]); split; lia. }
+  assert (Hout : forall i c, In (i, c) (L1 ++ L2) -> forall j, i <= j -> j < i + c -> get es' j = get (entries sg) j).
+  { intros i c Hin j Hj1 Hj2. destruct (Hposn _ _ Hin) as (Hc & [H|H]); apply S4; lia. }
+  assert (Hpos : forall i c, In (i, c) (L1 ++ L2) -> 0 < c /\ i <> a).
+  { intros i c Hin. destruct (Hposn _ _ Hin) as (Hc & [H|H]); split; lia. }
   assert (Hbin : slice_bin w < len qs).
   { rewrite Q1. apply slice_bin_lt. lia. }
   assert (Hqin : forall i b, In i (q_get qs b) -> In i (q_get qs' b)).
   { intros i b Hi. unfold qs'. destruct (queued sg); [|assumption].
     rewrite q_get_push by assumption. destruct (b =? slice_bin w) eqn:E; [|assumption].
     apply N.eqb_eq in E. subst b. right. assumption. }
-  unfold span_Inv_with. cbn [fst snd]. fold sg'.
+  split; [|split; [assumption|split; [intros j Hj; apply S4; lia|exact S2]]].
+  unfold flat_inv.
   change (entries sg') with es'. change (slice_entries sg') with (slice_entries sg).
-  change (info_slices sg') with (info_slices sg).
-  split; [apply tiles_mid; assumption|]. split; [assumption|].
+  split; [assumption|].
   split.
   { apply Forall_mid.
     - apply (Forall_first_ok_transfer (entries sg)); [|assumption]. intros i c Hin.
@@ -452,21 +454,19 @@ Proof.
       + rewrite S3 by lia. cbn.
         split; [intros; lia|]. split; [right; reflexivity|]. split; [left; reflexivity|].
         intros Hq. unfold qs'. rewrite Hq. rewrite q_get_push by assumption. rewrite N.eqb_refl. left; reflexivity. }
-  split. { exists (match l1 with [] => [] | _ :: t => t end ++ (a, w) :: l2). rewrite Hr. reflexivity. }
-  split. { rewrite S4 by lia. assumption. }
   split.
   { rewrite count_used_app, count_used_cons, S2. cbn [bsz]. cbn [N.ltb N.compare].
     rewrite count_used_app in Hu.
-    rewrite (count_used_ext (entries sg) es' l1), (count_used_ext (entries sg) es' l2); [lia| |].
-    - intros i c Hin. assert (Hin' : In (i, c) (l1 ++ l2)) by (apply in_or_app; right; assumption).
+    rewrite (count_used_ext (entries sg) es' L1), (count_used_ext (entries sg) es' L2); [lia| |].
+    - intros i c Hin. assert (Hin' : In (i, c) (L1 ++ L2)) by (apply in_or_app; right; assumption).
       rewrite (Hout i c Hin'); [reflexivity|lia|]. destruct (Hpos i c Hin'). lia.
-    - intros i c Hin. assert (Hin' : In (i, c) (l1 ++ l2)) by (apply in_or_app; left; assumption).
+    - intros i c Hin. assert (Hin' : In (i, c) (L1 ++ L2)) by (apply in_or_app; left; assumption).
       rewrite (Hout i c Hin'); [reflexivity|lia|]. destruct (Hpos i c Hin'). lia. }
   split; [rewrite S1; assumption|]. split; [assumption|].
   unfold queues_ok. change (entries sg') with es'. change (queued sg') with (queued sg).
   split. { unfold qs'. destruct (queued sg); [rewrite q_upd_length|]; assumption. }
   assert (Hmem : forall b i, In i (q_get qs b) -> i <> a /\ get es' i = get (entries sg) i /\
-                              In (i, slice_count (get (entries sg) i)) (l1 ++ (a, w) :: l2)).
+                              In (i, slice_count (get (entries sg) i)) (L1 ++ (a, w) :: L2)).
   { intros b i Hi. destruct (Q3 b i Hi) as (A1 & A2 & A3). destruct (Hpos _ _ A2) as (Hc & Hne).
     split; [assumption|]. split; [apply (Hout _ _ A2); lia|]. apply In_app_mid. right. assumption. }
   split.
@@ -483,6 +483,60 @@ Proof.
     + rewrite S2. cbn. split; [reflexivity|]. split; [|reflexivity]. apply In_app_mid. left. reflexivity.
     + destruct (Hmem b i Hi') as (M1 & M2 & M3). destruct (Q3 b i Hi') as (A1 & A2 & A3). rewrite M2. auto.
   - intros Hq. unfold qs'. rewrite Hq. apply Q4. assumption.
+Qed.
+
+Lemma inv_with_flat U sg qs sps m :
+  kind sg = SegNormal ->
+  (span_Inv_with U (sg, qs) sps m <->
+   (tiles 0 m sps /\ slice_entries sg <= m /\ (exists r, sps = (0, info_slices sg) :: r) /\
+    0 < bsz (get (entries sg) 0) /\ flat_inv U sg qs sps)).
+Proof. intros Hk. unfold span_Inv_with, flat_inv. cbn [fst snd]. tauto. Qed.
+
+Lemma raw_a_pos U st a w l1 l2 m : raw_inv U st a w l1 l2 m -> 0 < a.
+Proof.
+  destruct st as [sg qs]. intros H. apply raw_inv_flat in H as (T1 & _ & _ & _ & _ & (r & Hr) & _).
+  subst l1. cbn in T1. destruct T1 as (_ & Hc & T1). apply tiles_le in T1. lia.
+Qed.
+
+(* mi_segment_span_free on the raw region: a valid segment with the free span (a, w) *)
+Lemma raw_fill_free U sg qs a w l1 l2 m :
+  raw_inv U (sg, qs) a w l1 l2 m ->
+  span_Inv_with U (span_free (sg, qs) a w) (l1 ++ (a, w) :: l2) m.
+Proof.
+  intros H. pose proof (raw_a_pos _ _ _ _ _ _ _ H) as Ha0.
+  apply raw_inv_flat in H as (T1 & Hw & T2 & Hm & Haw & (r & Hr) & Hb0 & Hflat).
+  destruct (flat_add_free U sg qs a w l1 l2 Hflat Hw Haw Ha0) as (Hflat' & Hfr & Hget & _).
+  { intros i c Hin. apply (raw_outside _ _ _ _ _ _ _ T1 T2 Hin). }
+  cbv zeta in Hflat', Hfr, Hget.
+  destruct (span_free (sg, qs) a w) as [sg' qs']. cbn [fst snd] in *.
+  destruct Hflat' as (Hk' & Hrest). pose proof (conj Hk' Hrest) as Hflat'.
+  apply (inv_with_flat U sg' qs' _ m Hk').
+  destruct Hfr as (F1 & F2 & F3 & F4 & F5). rewrite F3, F4.
+  split; [apply tiles_mid; assumption|]. split; [assumption|].
+  split. { exists (match l1 with [] => [] | _ :: t => t end ++ (a, w) :: l2). rewrite Hr. reflexivity. }
+  split; [|assumption]. rewrite Hget by lia. assumption.
+Qed.
+
+(* mi_segment_slice_split, span part: the tail of the raw region becomes a free span *)
+Lemma raw_shrink_right U sg qs a w l1 l2 m k :
+  raw_inv U (sg, qs) a w l1 l2 m -> 0 < k -> k < w ->
+  let st' := span_free (sg, qs) (a + k) (w - k) in
+  raw_inv U st' a k l1 ((a + k, w - k) :: l2) m /\ frame_seg sg (fst st') /\
+  (forall j, j < a + k \/ a + w <= j -> get (entries (fst st')) j = get (entries sg) j).
+Proof.
+  intros H Hk0 Hkw. pose proof (raw_a_pos _ _ _ _ _ _ _ H) as Ha0.
+  apply raw_inv_flat in H as (T1 & Hw & T2 & Hm & Haw & (r & Hr) & Hb0 & Hflat).
+  destruct (flat_add_free U sg qs (a + k) (w - k) l1 l2 Hflat) as (Hflat' & Hfr & Hget & _); try lia.
+  { intros i c Hin. destruct (raw_outside _ _ _ _ _ _ _ T1 T2 Hin) as (Hc & Hp). split; [assumption|]. lia. }
+  cbv zeta in Hflat', Hfr, Hget |- *.
+  destruct (span_free (sg, qs) (a + k) (w - k)) as [sg' qs']. cbn [fst snd] in *.
+  split; [|split; [assumption|intros j Hj; apply Hget; lia]].
+  apply raw_inv_flat.
+  destruct Hfr as (F1 & F2 & F3 & F4 & F5). rewrite F3, F4.
+  split; [assumption|]. split; [assumption|].
+  split. { cbn [tiles]. split; [reflexivity|]. split; [lia|]. replace (a + k + (w - k)) with (a + w) by lia. assumption. }
+  split; [assumption|]. split; [lia|]. split; [exists r; assumption|].
+  split; [|assumption]. rewrite Hget by lia. assumption.
 Qed.
 
 (* mi_segment_span_allocate on the raw region: a valid segment with the used span (a, w) *)
